@@ -257,7 +257,7 @@ def parse(line):
     if not m:
         return None
     r = m.group(1)
-    return {"R": r, "verdict": all(ch in "1/" for ch in r), "L": int(m.group(2)), "F": m.group(3), "M": m.group(4),
+    return {"R": r, "verdict": all(ch in "1/" for ch in r.split("/")[-1]) if "E" in r else all(ch in "1/" for ch in r), "L": int(m.group(2)), "F": m.group(3), "M": m.group(4),
             "V": m.group(5), "extra": m.group(6).strip()}
 
 
@@ -465,8 +465,11 @@ class SCase(Case):
         def j(xs):
             xs = list(xs)
             return ",".join(xs) if xs else "-"
-        ts = "/".join("%s:%s:%s%s" % (j(vlib.hexs(h) for h in t[0]), vlib.hexs(t[1]), t[2], ":r" if len(t) > 3 and t[3] else "")
-                      for t in self.transfers)
+        def steps(t):
+            if len(t) < 4 or not t[3]:
+                return ""
+            return ":" + ("r" if t[3] is True else t[3])
+        ts = "/".join("%s:%s:%s%s" % (j(vlib.hexs(h) for h in t[0]), vlib.hexs(t[1]), t[2], steps(t)) for t in self.transfers)
         return "S %d %d %s %s -" % (self.ht, self.doff, j("%d.%d.%d" % c for c in self.chunks), ts)
 
 
@@ -749,7 +752,7 @@ def raw_scase(line):
     trs = []
     for tr in t[4].split("/"):
         f = tr.split(":")
-        trs.append(([vlib.unhex(h) for h in sp(f[0])], vlib.unhex(f[1]), f[2], len(f) > 3 and f[3] == "r"))
+        trs.append(([vlib.unhex(h) for h in sp(f[0])], vlib.unhex(f[1]), f[2], f[3] if len(f) > 3 else ""))
     return SCase("replay", chunks, trs, doff=int(t[2]), ht=int(t[1]))
 
 
